@@ -69,14 +69,17 @@ def numFrac : List Char → List Char × List Char
     if d.1.isEmpty then ([], '.' :: r) else ('.' :: d.1, d.2)
   | cs => ([], cs)
 
+/-- optional sign of the exponent -/
+def expSign : List Char → List Char × List Char
+  | '+' :: r => (['+'], r)
+  | '-' :: r => (['-'], r)
+  | r => ([], r)
+
 /-- `([eE][+-]?[0-9]+)?`: taken only when at least one digit follows -/
 def numExp : List Char → List Char × List Char
   | e :: r =>
     if e == 'e' || e == 'E' then
-      let sg := match r with
-        | '+' :: r'' => (['+'], r'')
-        | '-' :: r'' => (['-'], r'')
-        | r'' => ([], r'')
+      let sg := expSign r
       let d := takeWhileC isDigitC sg.2
       if d.1.isEmpty then ([], e :: r) else (e :: sg.1 ++ d.1, d.2)
     else ([], e :: r)
